@@ -25,9 +25,9 @@
 //! (same socket pair ⇒ FIFO on loopback); everything captured before the marker belongs to operations
 //! issued so far.
 //!
-//! SRTCP under AES_CM_128_HMAC_SHA1_32: rustrtc uses a 4-byte SRTCP tag where RFC 5764 / webrtc-srtp use
-//! 10 bytes (an interop matter of C04, not a cleartext leak).  For that one (profile, SRTCP) combination
-//! the harness uses its own RFC 3711 AES-CM/HMAC-SHA1 code with a 4-byte tag instead of the reference.
+//! SRTCP under AES_CM_128_HMAC_SHA1_32 keeps the 80-bit tag (RFC 5764 4.1.2; rustrtc used a 4-byte tag
+//! before the C04 fix).  For that (profile, SRTCP) combination the harness uses its own RFC 3711
+//! AES-CM/HMAC-SHA1 code (the reference does not check the tag when E=0, see open_rtcp).
 
 #![allow(dead_code)]
 use crate::common::*;
@@ -241,8 +241,8 @@ impl KeyGen {
         let enc = RefCtx::new(&rx_key, &rx_salt, prof.reference(), None, None)
             .map_err(|e| format!("reference context: {e}"))?;
         Ok(KeyGen {
-            own_dec: OwnSrtcp::new(&tx_key, &tx_salt, if prof == Prof::S32 { 4 } else { 10 }),
-            own_enc: OwnSrtcp::new(&rx_key, &rx_salt, if prof == Prof::S32 { 4 } else { 10 }),
+            own_dec: OwnSrtcp::new(&tx_key, &tx_salt, 10 /* RFC 5764 4.1.2: SRTCP keeps the 80-bit tag under _32 too */),
+            own_enc: OwnSrtcp::new(&rx_key, &rx_salt, 10 /* RFC 5764 4.1.2: SRTCP keeps the 80-bit tag under _32 too */),
             tx_key,
             tx_salt,
             rx_key,
@@ -1519,7 +1519,7 @@ async fn run_pc_inner(sc: &Value, o: &mut Outcome) -> Result<(), String> {
             for (k, sa) in [(&mat[0..16], &mat[32..32 + sl]), (&mat[16..32], &mat[32 + sl..32 + 2 * sl])] {
                 ctx[dir].push((
                     RefCtx::new(k, sa, prof.reference(), None, None).map_err(|e| e.to_string())?,
-                    OwnSrtcp::new(k, sa, if prof == Prof::S32 { 4 } else { 10 }),
+                    OwnSrtcp::new(k, sa, 10 /* RFC 5764 4.1.2: SRTCP keeps the 80-bit tag under _32 too */),
                 ));
             }
         }
@@ -1534,7 +1534,7 @@ async fn run_pc_inner(sc: &Value, o: &mut Outcome) -> Result<(), String> {
             let (key, salt) = (&k[..16], &k[16..16 + prof.salt_len()]);
             ctx[dir].push((
                 RefCtx::new(key, salt, prof.reference(), None, None).map_err(|e| e.to_string())?,
-                OwnSrtcp::new(key, salt, if prof == Prof::S32 { 4 } else { 10 }),
+                OwnSrtcp::new(key, salt, 10 /* RFC 5764 4.1.2: SRTCP keeps the 80-bit tag under _32 too */),
             ));
         }
     }
@@ -2074,7 +2074,7 @@ pub fn run(args: &Args) -> i32 {
     report.assume("loopback UDP between one pair of sockets is FIFO and loss-free for the few datagrams in flight per barrier");
     report.assume("component level: RtpTransport over IceConn with a real UDP socket; the harness plays the ICE read loop and the remote peer");
     report.assume("profiles reachable through SDES / DTLS-SRTP only (AES_CM_128_HMAC_SHA1_80/_32, AEAD_AES_128_GCM); SrtpProfile::NullCipherHmac is not mapped by peer_connection.rs");
-    report.note("reference = webrtc-srtp 0.17 Context (SRTP all profiles, SRTCP for _80 and GCM); SRTCP under _32 is checked by harness-own RFC 3711 code with rustrtc's 4-byte tag (reference uses 10: interop matter of C04)");
+    report.note("reference = webrtc-srtp 0.17 Context (SRTP all profiles, SRTCP for _80 and GCM); SRTCP under _32 is checked by harness-own RFC 3711 code with the 80-bit tag RFC 5764 4.1.2 prescribes");
     report.note("PeerConnection-level NatWire capture is not part of this engine run (component level only)");
     let rt = build_runtime(16);
 
